@@ -702,6 +702,18 @@ func (e *Engine) instrEffects(f *ssa.Function, in ssa.Instruction) []string {
 	case *ssa.Send:
 		return []string{"G|chan.sent|Int", "GA|chan.vals|" + e.u.sortOf(v.X.Type())}
 	case *ssa.Next:
+		if rng, ok := v.Iter.(*ssa.Range); ok && !v.IsString {
+			if _, isMap := rng.X.Type().Underlying().(*types.Map); isMap {
+				_, _, ks, _ := e.mapKeys(rng.X.Type())
+				return []string{"IT", "ITV|" + ks}
+			}
+		}
+		return []string{"IT"}
+	case *ssa.Range:
+		if _, isMap := v.X.Type().Underlying().(*types.Map); isMap {
+			_, _, ks, _ := e.mapKeys(v.X.Type())
+			return []string{"IT", "ITV|" + ks}
+		}
 		return []string{"IT"}
 	case *ssa.Go:
 		return e.callEffects(f, v.Common())
